@@ -303,18 +303,16 @@ class TrafficChecker:
         send_only = op[4] if op[0] == "send" else op[1]
         acked = delivered and not noack and any(e["acked_by"] for e in mine if e["ok"])
         rp = self.m["rpipe"][peer]
-        loaded = self.acks[peer]
-        if got is not None and got not in [x for _p, x in loaded] + self.spent[peer]:
-            return ("C20/ack-payload-from-nowhere", "%r returned %s, the peer had loaded %s" % (op[:2], val, [x.hex() for _p, x in loaded]))
+        # what the peer's radio held when the call started is the ground truth for "the peer's ACK payload"
+        queued = [x for kd, x in self.call_peer_tx if kd >= 10]
+        if got is not None and got not in queued + self.spent[peer]:
+            return ("C20/ack-payload-from-nowhere", "%r returned %s, the peer's TX FIFO held %s" % (op[:2], val, [x.hex() for x in queued]))
         if self.m["lossless"] and acked:
-            match = next((i for i, (p, _x) in enumerate(loaded) if p == rp), None)
-            exp = loaded.pop(match)[1] if match is not None else None
-            if exp is not None:
-                self.spent[peer].append(exp)
+            exp = next((x for kd, x in self.call_peer_tx if kd == 10 + rp), None)
             if not send_only and got != exp:
-                return ("C20/ack-payload-not-returned", "%r returned %s, the peer had loaded %s for pipe %s" % (
+                return ("C20/ack-payload-not-returned", "%r returned %s, the peer's radio held %s for pipe %s" % (
                     op[:2], val, None if exp is None else exp.hex(), rp))
-        elif got is not None:
+        if got is not None:
             self.spent[peer].append(got)
         return None
 
@@ -380,9 +378,11 @@ class TrafficChecker:
                         return ("C20/send-not-reported-delivered", "send returned %s on a loss-free compatible link" % res)
             if name == "send":
                 self.call = (cur, op, res, snaps)
+                self.call_peer_tx = list(prev[peer]["tx"])
             elif m["lossless"] and res[0] == 0 and not op[2]:
                 # list form: every element is acknowledged in turn and takes the oldest ACK payload loaded for the pipe
-                loaded, rp = self.acks[peer], m["rpipe"][peer]
+                rp = m["rpipe"][peer]
+                queued = [x for kd, x in prev[peer]["tx"] if kd == 10 + rp]
                 vals, p = [], 2
                 for _ in range(res[1]):
                     if res[p] == 0:
@@ -393,16 +393,16 @@ class TrafficChecker:
                         vals.append(bytes(res[p + 3:p + 3 + n]) if res[p + 1] == 1 else None)
                         p += 3 + n if res[p + 1] == 1 else 2
                 for got in vals:
-                    match = next((i for i, (pp, _x) in enumerate(loaded) if pp == rp), None)
-                    exp = loaded.pop(match)[1] if match is not None else None
+                    exp = queued.pop(0) if queued else None
                     if exp is not None:
                         self.spent[peer].append(exp)
                     if not op[4] and got != exp:
-                        return ("C20/ack-payload-not-returned", "send(list) returned %s, the peer had loaded %s for pipe %s" % (
+                        return ("C20/ack-payload-not-returned", "send(list) returned %s, the peer's radio held %s for pipe %s" % (
                             [None if v is None else v.hex() for v in vals], None if exp is None else exp.hex(), rp))
             return None
         if name == "resend":
             self.call = (cur, op, res, snaps)
+            self.call_peer_tx = list(prev[peer]["tx"])
             return None
         # accessors (C10): judged against the radio's state; the lite driver's status-derived attributes are
         # documented to reflect the last SPI transaction, so they are judged right after update()
@@ -451,7 +451,8 @@ class TrafficChecker:
                 return ("C20/irq-flag-wrong", "%s = %s, STATUS=%02X" % (name, res, b["regs"][7]))
         elif name == "clear_status_flags":
             want = b["regs"][7] & ~((op[1] << 6) | (op[2] << 5) | (op[3] << 4))
-            if (a["regs"][7] & 0x70) != (want & 0x70):
+            restarted = b["ce"] and not b["regs"][0] & 1 and b["tx"] and op[3]   # clearing MAX_RT with CE high re-starts the transmission
+            if not restarted and (a["regs"][7] & 0x70) != (want & 0x70):
                 return ("C20/clear-status-flags-wrong", "STATUS %02X -> %02X for %r" % (b["regs"][7], a["regs"][7], op[1:]))
         elif name == "flush_rx":
             if a["rx"] or a["tx"] != b["tx"]:
